@@ -35,13 +35,15 @@ pub fn check_one<P: Pid>(c: &PacketCase, st: &mut Stats) -> R {
     let built = match catch(|| adapt::to_lib::<P>(&c.ap)) {
         Err(pm) => return Err(Fail::new("C03.bytes_ne_reference", format!("{sig}/builder_panic"), pm)),
         Ok(Err(_)) => {
+            // the builder refuses field values the specification allows: direction (a) has nothing to compare, but the
+            // spec-conformant encoding must still be parsed (direction (b) below)
             st.class("rejected_by_builder");
-            return Ok(());
+            None
         }
-        Ok(Ok(p)) => p,
+        Ok(Ok(p)) => Some(p),
     };
     st.class(&sig);
-    let bytes = built.to_continuous_buffer();
+    let bytes = built.as_ref().map(|b| b.to_continuous_buffer()).unwrap_or_else(|| reference.clone());
     if bytes != reference {
         let d = first_diff(&bytes, &reference);
         return Err(Fail::new(
@@ -354,7 +356,7 @@ pub fn run(ctx: &Ctx) -> Report {
          reference encoder, compared byte for byte, and reference bytes parsed by the library and read back through accessors; \
          plus the complete numeric tables; non-trivial = optional field/property/boundary length; distinct by encoded bytes",
     );
-    let n = ctx.tier.pick(150_000, 3_000_000);
+    let n = ctx.tier.pick(400_000, 3_000_000);
     let (st, v) = search(ctx, "c03.differential", n, case_strategy, test);
     rep.absorb("differential", st, v, false);
     let mut st = Stats::default();
